@@ -1,6 +1,6 @@
 """C14 — comparison predicates follow numeric and lexicographic order."""
 from solver import Solver, real_calls, is_none, some_payload, str_cell
-from sym import Walker, strip, show, mentions
+from sym import Walker, strip, show, mentions, lookup
 import fdeval
 
 EXPLANATION = ("Values are touched only through comparisons, so a finite set of orderings decides every arm. For each "
@@ -163,9 +163,8 @@ def run(ctx):
                 t = strip(pl[1][k])
                 good = t[0] == "field" and t[2] == "Some.0" and t[1][0] == "call" and t[1][1] == GC.path
                 if good:
-                    a0 = strip(t[1][2][0])
-                    good = a0[0] == "call" and a0[1].endswith("::index") and strip(a0[2][0]) == terms and \
-                        a0[2][1][0] == "const" and a0[2][1][3] == want_idx
+                    lk = lookup(t[1][2][0])          # terms[k] on a Vec (Index::index) or on a slice (a place projection)
+                    good = lk is not None and lk[0] == terms and lk[1][0] == "const" and lk[1][3] == want_idx
                 if not good:
                     ok, why = False, "operand %d is %s, not get_constant(terms[%d])" % (k, show(t), want_idx)
         ctx.ob("R3", "operands-in-order", ok and n > 0, ctx.where(G2), why or "(get_constant(terms[0]), get_constant(terms[1]))")
